@@ -36,6 +36,7 @@ type Config struct {
 	ForceMerge       []string          `json:"forceMerge"`
 	FloatMode        string            `json:"floatMode"`
 	TimeoutMs        int               `json:"solverTimeoutMs"`
+	FirstTimeoutMs   int               `json:"firstTimeoutMs"`
 	Workers          int               `json:"workers"`
 	TimeBudgetS      int               `json:"timeBudgetS"`
 	Unwind           int               `json:"unwind"`
@@ -135,6 +136,7 @@ type Stats struct {
 	Steps         int64
 	Terms         int64
 	SolverUnknown int
+	Fallbacks     int
 	SolverErrors  int
 }
 
@@ -988,6 +990,7 @@ func (w *World) newCtx(id int) *Ctx {
 	c.sliceData = map[*Value]Slice{}
 	c.fnSeen = map[*ssa.Function]bool{}
 	c.solver = NewSolver(w.cfg.TimeoutMs)
+	c.solver.firstTimeout = w.cfg.FirstTimeoutMs
 	c.tb = TB{NewTermTable()}
 	for i := range c.byteTab {
 		c.byteTab[i] = &Term{isC: true, cval: uint64(i), s: S8}
@@ -1162,6 +1165,7 @@ func (w *World) worker(id int, wg *sync.WaitGroup) {
 	w.stats.Queries += c.solver.Queries
 	w.stats.SolverNs += int64(c.solver.Time)
 	w.stats.SolverUnknown += c.solver.Unknown
+	w.stats.Fallbacks += c.solver.Fallbacks
 	w.stats.SolverErrors += c.solver.Errors
 	if int64(c.solver.MaxQuery) > w.stats.MaxQueryNs {
 		w.stats.MaxQueryNs = int64(c.solver.MaxQuery)
